@@ -49,6 +49,13 @@ func FormsPDF(r *rand.Rand, tok func() string) ([]byte, []Field, map[string]int)
 			name := fmt.Sprintf("K%d", j+1)
 			xo = append(xo, KV{name, Ref{ch}})
 			fmt.Fprintf(&sb, "q 1 0 0 1 %d 0 cm /%s Do Q\n", 30*(j+1), name)
+			if j == 0 {
+				// the first child is stamped several times (a tiled mark): a reference that
+				// leads back to the form then fans out at every level
+				for t := 1; t < 8; t++ {
+					fmt.Fprintf(&sb, "q 1 0 0 1 %d %d cm /%s Do Q\n", 30*(j+1), 12*t, name)
+				}
+			}
 		}
 		show(&sb, 10+20*i, 190-20*i)
 		res := Dict{{"Font", Dict{{"F1", Ref{"f1"}}}}}
